@@ -419,6 +419,9 @@ impl SessionManager {
     pub fn prepare_response(&mut self, requests: &RequestedItems, permitted: PermittedItems) {
         let prepared_response = DeviceSession::prepare_response(self, requests, permitted);
         self.state = State::Signing(prepared_response);
+        if let Err(error) = self.finalize_if_complete() {
+            tracing::error!("unable to finalize response: {}", error);
+        }
     }
 
     fn handle_decoded_request(&mut self, request: SessionData) -> RequestAuthenticationOutcome {
@@ -455,6 +458,9 @@ impl SessionManager {
             Ok(r) => r,
             Err(e) => {
                 self.state = State::Signing(e);
+                if let Err(error) = self.finalize_if_complete() {
+                    tracing::error!("unable to finalize error response: {}", error);
+                }
                 return RequestAuthenticationOutcome::default();
             }
         };
@@ -517,11 +523,19 @@ impl SessionManager {
     /// }
     /// ```
     pub fn submit_next_signature(&mut self, signature: Vec<u8>) -> anyhow::Result<()> {
-        if matches!(self.state, State::Signing(_)) {
+        if let State::Signing(p) = &mut self.state {
+            p.submit_next_signature(signature);
+        }
+        self.finalize_if_complete()
+    }
+
+    /// Once a prepared response has no document left to sign (possibly none to begin with, e.g.
+    /// an error response), build, encrypt and stage it so that it can be retrieved.
+    fn finalize_if_complete(&mut self) -> anyhow::Result<()> {
+        if matches!(&self.state, State::Signing(p) if p.is_complete()) {
             match std::mem::take(&mut self.state) {
-                State::Signing(mut p) => {
-                    p.submit_next_signature(signature);
-                    if p.is_complete() {
+                State::Signing(p) => {
+                    {
                         let response = p.finalize_response();
                         let bytes = cbor::to_vec(&response)?;
                         let response2: DeviceResponse = cbor::from_slice(&bytes).unwrap();
@@ -547,8 +561,6 @@ impl SessionManager {
                         let session_data = SessionData { status, data };
                         let encoded_response = crate::cbor::to_vec(&session_data)?;
                         self.state = State::ReadyToRespond(encoded_response);
-                    } else {
-                        self.state = State::Signing(p)
                     }
                 }
                 _ => unreachable!(),
